@@ -131,6 +131,10 @@ def render_steps(doc, table, cover, n, first_types=("given", "when", "then"), pr
             stype = kind if kind in ("given", "when", "then") else last
         last = stype
         name = gen_name(rnd) or "x"
+        # the written keyword must be the longest step keyword the line starts with (en-old: "Tha " + "the ..." is "Tha the ")
+        allkw = [a for k in STEP_TYPES for a in table[k]]
+        if any(len(a) > len(kw) and ((kw + name).startswith(a) or (kw + name).lower().startswith(a.lower())) for a in allkw):
+            name = "q " + name
         ln = doc.emit(kw + name)
         st = {"kw": kw.rstrip(), "type": stype, "name": name, "line": ln, "text": None, "table": None}
         r = rnd.random()
